@@ -12,7 +12,7 @@ NSHARDS = {"quick": 4, "thorough": 16}
 CLAUSES = {
     "C01.mosaic": 2000, "C01.chain": 500, "C01.pedigree": 2000, "C01.depth": 300, "C01.founder.side": 300, "C01.founder.switch": 300,
     "C01.meta.count": 300, "C01.meta.names": 300, "C01.meta.family": 300, "C01.meta.counters": 300,
-    "C01.meta.vrnt": 300, "C01.meta.parent_unchanged": 300, "C01.dh.homozygous": 100,
+    "C01.meta.vrnt": 300, "C01.meta.parent_unchanged": 300, "C01.meta.args_unchanged": 300, "C01.dh.homozygous": 100,
 }
 HOOKS_REQUIRED = ["mat_meiosis calls"]
 RULE = ("seeded class-based mate() calls: 7 protocols x founders 1-9 taxa x 1-48 markers x 1-4 chromosomes; cross tables with "
@@ -112,6 +112,13 @@ def gen_case(g):
     else:
         xc = g.integers(0, ntaxa, (ncross, npar)); xc[:, -1] = xc[:, 0]
     xc = xc.astype("int64")
+    lay = int(g.integers(5))
+    if lay == 1:
+        xc = numpy.asfortranarray(xc)                       # e.g. numpy.array([col0, col1, ...]).T
+    elif lay == 2:
+        big = numpy.zeros((ncross, 2 * npar), dtype="int64"); big[:, ::2] = xc; xc = big[:, ::2]      # non-contiguous view
+    elif lay == 3:
+        xc = xc.astype("int32")
 
     def counts():
         r = g.random()
@@ -143,8 +150,13 @@ def gen_case(g):
 def check_call(ctx, name, prefix, proto, pg, xc, nmating, nprogeny, nself, codes, icls, coords, tot_expected):
     """Run one mate() call under the hook and judge it."""
     ncross = len(xc)
-    nm = numpy.broadcast_to(nmating, (ncross,)).astype(int)
-    npg = numpy.broadcast_to(nprogeny, (ncross,)).astype(int)
+    # expectations come from snapshots taken BEFORE the call: a protocol that writes into the caller's arrays must not
+    # be able to rewrite the specification it is judged against
+    xc_live, nmating_live, nprogeny_live = xc, nmating, nprogeny
+    xc = numpy.array(xc, copy=True)
+    arg0 = (xc.copy(), numpy.array(nmating, copy=True), numpy.array(nprogeny, copy=True))
+    nm = numpy.array(numpy.broadcast_to(nmating, (ncross,)), dtype=int)
+    npg = numpy.array(numpy.broadcast_to(nprogeny, (ncross,)), dtype=int)
     founder = pg.mat
     before_mat = founder.copy()
     before_v = pop.snapshot(pg, pop.VRNT_FIELDS); before_t = pop.snapshot(pg, pop.TAXA_FIELDS)
@@ -154,7 +166,7 @@ def check_call(ctx, name, prefix, proto, pg, xc, nmating, nprogeny, nself, codes
     w = {"protocol": name, "xconfig": xc, "nmating": nmating, "nprogeny": nprogeny, "nself": nself,
          "ntaxa": pg.ntaxa, "nvrnt": pg.nvrnt, "xoprob": pg.vrnt_xoprob, "codes": codes}
     try:
-        out = proto.mate(pg, xc, nmating, nprogeny, nself=nself)
+        out = proto.mate(pg, xc_live, nmating_live, nprogeny_live, nself=nself)
     except Exception as e:
         if tot_expected == 0:
             ctx.raised(site + " (zero progeny requested)", e)
@@ -186,6 +198,9 @@ def check_call(ctx, name, prefix, proto, pg, xc, nmating, nprogeny, nself, codes
               all(pop.same(getattr(pg, f, None), before_v[f]) for f in pop.VRNT_FIELDS) and
               all(pop.same(getattr(pg, f, None), before_t[f]) for f in pop.TAXA_FIELDS), site,
               "parental matrix and metadata unchanged", icls, witness=w, coords=coords)
+    ctx.check("C01.meta.args_unchanged", numpy.array_equal(numpy.asarray(xc_live), arg0[0]) and numpy.array_equal(numpy.asarray(nmating_live), arg0[1])
+              and numpy.array_equal(numpy.asarray(nprogeny_live), arg0[2]), site, "cross configuration and count arrays passed by the caller are not modified", icls,
+              witness=dict(w, nmating_after=nmating_live, nprogeny_after=nprogeny_live, xconfig_after=xc_live), coords=coords)
     badf = [f for f in pop.VRNT_FIELDS if not pop.same(getattr(out, f, None), before_v[f])]
     hapf = [f for f in badf if f in ("vrnt_hapalt", "vrnt_hapref")]
     other = [f for f in badf if f not in hapf]
